@@ -71,11 +71,7 @@ Proof.
 Qed.
 
 Section Generic.
-  Variable O : oracle.
   Variable P : lparams.
-  Hypothesis Hks : forall k n len, length (lp_ks P k n len) = len.
-  Hypothesis Htag : forall k e n c f a, length (lp_tag P k e n c f a) = lp_tlen P.
-  Hypothesis Hsyn : forall n0 m, length n0 = 32 -> length (lp_synth P n0 m) = 32.
 
   Definition aad_ok (a : bytes) : Prop := lp_aad P = true \/ a = [].
 
@@ -104,29 +100,6 @@ Section Generic.
     rewrite (take_app_exact n c 32) by (symmetry; exact Hn).
     rewrite (drop_app_exact n c 32) by (symmetry; exact Hn).
     reflexivity.
-  Qed.
-
-  (* C01: sealing succeeds and unsealing the result returns the message *)
-  Theorem lg_roundtrip key enc n0 m f a :
-    length n0 = 32 -> aad_ok a ->
-    exists p, lg_seal P key enc (n0 ++ m) f a = Ok p /\ lg_unseal P key enc p f a = Ok m.
-  Proof.
-    intros Hn Ha. unfold lg_seal. rewrite (aad_gate _ Ha).
-    replace (split_first 32 (n0 ++ m)) with (Some (n0, m)) by (rewrite <- Hn; symmetry; apply split_first_app).
-    eexists; split; [reflexivity|].
-    rewrite lg_unseal_triple; [|apply Hsyn; exact Hn|apply Htag|exact Ha].
-    rewrite xorl_length by (rewrite Hks; lia).
-    rewrite beq_refl. rewrite xorl_involutive by (rewrite Hks; lia). reflexivity.
-  Qed.
-
-  (* the sealed payload has the fixed overhead 32 + tag length *)
-  Theorem lg_seal_length key enc n0 m f a p :
-    length n0 = 32 -> lg_seal P key enc (n0 ++ m) f a = Ok p -> length p = 32 + length m + lp_tlen P.
-  Proof.
-    intros Hn. unfold lg_seal. destruct (negb (lp_aad P) && negb (isnil a)); [discriminate|].
-    replace (split_first 32 (n0 ++ m)) with (Some (n0, m)) by (rewrite <- Hn; symmetry; apply split_first_app).
-    intros E; inversion E; subst. rewrite !app_length, Hsyn, Htag by exact Hn.
-    rewrite xorl_length by (rewrite Hks; lia). lia.
   Qed.
 
   (* C02: acceptance characterisation — exactly the payloads nonce || c || tag whose tag is the MAC of
@@ -211,6 +184,34 @@ Section Generic.
     destruct (Nat.ltb (length p) (32 + lp_tlen P)); [reflexivity|].
     match goal with |- context [if ?b then _ else _] => destruct b end; reflexivity.
   Qed.
+
+  Hypothesis Hks : forall k n len, length (lp_ks P k n len) = len.
+  Hypothesis Htag : forall k e n c f a, length (lp_tag P k e n c f a) = lp_tlen P.
+  Hypothesis Hsyn : forall n0 m, length n0 = 32 -> length (lp_synth P n0 m) = 32.
+
+  (* C01: sealing succeeds and unsealing the result returns the message *)
+  Theorem lg_roundtrip key enc n0 m f a :
+    length n0 = 32 -> aad_ok a ->
+    exists p, lg_seal P key enc (n0 ++ m) f a = Ok p /\ lg_unseal P key enc p f a = Ok m.
+  Proof.
+    intros Hn Ha. unfold lg_seal. rewrite (aad_gate _ Ha).
+    replace (split_first 32 (n0 ++ m)) with (Some (n0, m)) by (rewrite <- Hn; symmetry; apply split_first_app).
+    eexists; split; [reflexivity|].
+    rewrite lg_unseal_triple; [|apply Hsyn; exact Hn|apply Htag|exact Ha].
+    rewrite xorl_length by (rewrite Hks; lia).
+    rewrite beq_refl. rewrite xorl_involutive by (rewrite Hks; lia). reflexivity.
+  Qed.
+
+  (* the sealed payload has the fixed overhead 32 + tag length *)
+  Theorem lg_seal_length key enc n0 m f a p :
+    length n0 = 32 -> lg_seal P key enc (n0 ++ m) f a = Ok p -> length p = 32 + length m + lp_tlen P.
+  Proof.
+    intros Hn. unfold lg_seal. destruct (negb (lp_aad P) && negb (isnil a)); [discriminate|].
+    replace (split_first 32 (n0 ++ m)) with (Some (n0, m)) by (rewrite <- Hn; symmetry; apply split_first_app).
+    intros E; inversion E; subst. rewrite !app_length, Hsyn, Htag by exact Hn.
+    rewrite xorl_length by (rewrite Hks; lia). lia.
+  Qed.
+
 End Generic.
 
 (* ---------- every backend model is the generic scheme at its parameters ---------- *)
